@@ -140,7 +140,8 @@ HTok == << <<"CL", ":", "sp", "2", "CR", "LF">>,       \* 1 Content-Length: 2
            <<"x">>, <<"y", "x">>,                       \* 14 15 payload bytes
            <<"CL", ":", "sp", "1", "2", "CR", "LF">>,   \* 16 Content-Length: 12
            <<"CL", ":", "sp", "2">>,                    \* 17 header line without terminator
-           <<"UK", ":", "sp", "LONG", "CR", "LF", "CL", ":", "sp", "2", "CR", "LF">> >>   \* 18 an unknown field longer than any read buffer, then Content-Length: 2
+           <<"UK", ":", "sp", "LONG", "CR", "LF", "CL", ":", "sp", "2", "CR", "LF">>,     \* 18 an unknown field longer than any read buffer, then Content-Length: 2
+           <<"UK", ":", "sp", "j", ":", "j", ":", "CR", "LF", "CL", ":", "sp", "1", "CR", "LF">> >>   \* 19 an unknown field whose value contains colons (Host: a:80), then Content-Length: 1
 
 RECURSIVE Flatten(_)
 Flatten(ts) == IF ts = <<>> THEN <<>> ELSE HTok[Head(ts)] \o Flatten(Tail(ts))
